@@ -88,7 +88,24 @@ def oracle_fit(ctx, thorough, forced=None):
         rho, radius = forced[0], forced[1]          # bound above one AND data more unstable than the bound: the constraint is active
         nx, nu = rng.randint(1, 2), 1
     X, kw, A0, B0 = lc.lin_data(rng, nx, nu, radius=radius, noise=rng.choice([0.0, 0.02, 0.1]), n_min=10 if radius > 1.2 else 12)
+    X, data_form = lc.maybe_int_data(rng, X, kw)
+    if forced is not None and len(forced) > 4:
+        # integer samples (sensor counts, no episode column) of a slightly unstable NON-NORMAL system: the constrained A
+        # keeps a diagonal entry above one although its eigenvalues are inside the bound
+        rs = np.random.RandomState(rng.randint(0, 2 ** 31 - 1))
+        nx, nu = 2, 1
+        At = np.array([[1.3, -0.8], [0.7, 0.4]]) * rng.choice([1.0, 0.97])
+        Bt = np.array([[0.0], [0.5]])
+        n = 12
+        x = np.zeros((n, 2)); u = rs.uniform(-1, 1, (n, 1)); x[0] = [1.0, 0.5]
+        for k in range(n - 1):
+            x[k + 1] = At @ x[k] + Bt @ u[k]
+        X = np.round(np.hstack((x, u)) * 8).astype('int64')
+        kw = {'n_inputs': 1, 'episode_feature': False}
+        data_form = 'integer dtype, no episode feature, non-normal system'
     max_iter = rng.choice([1, 2, 5] + ([20] if thorough else []))
+    if forced is not None and len(forced) > 4:
+        max_iter = 5        # (with P = I only, every entry of a feasible A is below the bound)
     fam = rng.choice(['edmd', 'dmdc'])
     if forced is not None and len(forced) > 2:
         fam = forced[2]
@@ -98,7 +115,8 @@ def oracle_fit(ctx, thorough, forced=None):
         # a solver that is stopped early: sub-problems end 'non-optimal' and whatever the fit returns must still be a
         # matrix that satisfied the constraint (the last optimal U, or zero)
         cap = forced[3]
-        sp['max_iterations'] = cap
+        if cap is not None:
+            sp['max_iterations'] = cap
     if fam == 'edmd':
         reg = lmi.LmiEdmdSpectralRadiusConstr(spectral_radius=lc.num(rng, rho), max_iter=max_iter, alpha=rng.choice([0, 0.1]),
                                               inv_method=rng.choice(['svd', 'chol']), solver_params=sp)
@@ -106,7 +124,7 @@ def oracle_fit(ctx, thorough, forced=None):
         reg = lmi.LmiDmdcSpectralRadiusConstr(spectral_radius=lc.num(rng, rho), max_iter=max_iter, alpha=rng.choice([0, 0.1]),
                                               solver_params=sp)
     case = {'family': fam, 'nx': nx, 'nu': nu, 'rho': rho, 'max_iter': max_iter, 'data_radius': radius,
-            'solver_max_iterations': cap, 'X': X.tolist(),
+            'solver_max_iterations': cap, 'data_form': data_form, 'X': X.tolist(),
             'replay': {'rng': snap, 'thorough': thorough, 'forced': forced}}
     try:
         reg.fit(X, **kw)
@@ -137,68 +155,73 @@ def run(ctx):
     ctx.proof_obligations('Properties.C09', THEOREMS)
     drv = ctx.get_driver()
     # (i) structure
-    la_lines, la_meta = [], []
-    for i in range(ctx.n(25, 300)):
-        items, tag = structure_case(ctx)
-        for line, lhs, what in items:
-            la_lines.append(line)
-            la_meta.append((lhs, what, tag))
-    for i in range(ctx.n(15, 200)):
-        items, tag = dmdc_structure_case(ctx)
-        for line, lhs, what in items:
-            la_lines.append(line)
-            la_meta.append((lhs, what, tag))
-    for (lhs, what, tag), rep in zip(la_meta, lc.la_ask(la_lines)):
-        ctx.count('structure:' + what)
-        ctx.record_case(dict(tag, part=what), True)
-        M = lc.parse_mat(rep)
-        if M is None or M.shape != lhs.shape or not np.allclose(M, lhs, rtol=1e-12, atol=1e-12):
-            ctx.mismatch(f'LMI block of {what}', tag, lhs.tolist(), None if M is None else M.tolist())
+    def _sec_problem_structure():
+        la_lines, la_meta = [], []
+        for i in range(ctx.n(25, 300)):
+            items, tag = structure_case(ctx)
+            for line, lhs, what in items:
+                la_lines.append(line)
+                la_meta.append((lhs, what, tag))
+        for i in range(ctx.n(15, 200)):
+            items, tag = dmdc_structure_case(ctx)
+            for line, lhs, what in items:
+                la_lines.append(line)
+                la_meta.append((lhs, what, tag))
+        for (lhs, what, tag), rep in zip(la_meta, lc.la_ask(la_lines)):
+            ctx.count('structure:' + what)
+            ctx.record_case(dict(tag, part=what), True)
+            M = lc.parse_mat(rep)
+            if M is None or M.shape != lhs.shape or not np.allclose(M, lhs, rtol=1e-12, atol=1e-12):
+                ctx.mismatch(f'LMI block of {what}', tag, lhs.tolist(), None if M is None else M.tolist())
+    ctx.attempt('problem structure', _sec_problem_structure)
     # (ii) loop
-    lines, meta = [], []
-    for i in range(ctx.n(60, 800)):
-        nx, nu = ctx.rng.randint(1, 2), ctx.rng.randint(0, 1)
-        X, kw, _, _ = lc.lin_data(ctx.rng, nx, nu)
-        fam = ctx.rng.choice(['edmd', 'edmd', 'dmdc'])
-        if fam == 'edmd':
-            mk = lambda **k: lmi.LmiEdmdSpectralRadiusConstr(spectral_radius=0.9, solver_params=dict(lc.SOLVER), **k)
-            reg, script, rows, line = lc.check_loop(ctx, mk, X, kw, (nx, nx + nu), (nx, nx), None, None)
-            Uret = reg.coef_.T
-        else:
-            mk = lambda **k: lmi.LmiDmdcSpectralRadiusConstr(spectral_radius=0.9, solver_params=dict(lc.SOLVER), **k)
-            reg, script, rows, line = lc.check_loop(ctx, mk, X, kw, (nx, nx + nu), (nx, nx), None, None, u_name='U_hat')
-            Uret = reg.U_hat_ if hasattr(reg, 'U_hat_') else None
-        lines.append(line)
-        meta.append((fam, reg, script, rows, Uret, nx, nu))
-    for (fam, reg, script, rows, Uret, nx, nu), rep in zip(meta, drv.ask(lines)):
-        t = rep.split()
-        ctx.count('loop:' + fam)
-        case = {'family': fam, 'rows': [[a, str(o), b] for a, o, b in rows], 'stop_at': script.stop_at,
-                'max_iter': reg.max_iter, 'atol': reg.iter_atol}
-        ctx.record_case(case, True)
-        if t[0] != 'ok':
-            ctx.mismatch('loop machine', case, None, rep)
-            continue
-        ui, pi, stop, n_iter, nlog = int(t[1]), int(t[2]), t[3], int(t[4]), int(t[5])
-        log = [float(Fraction(x)) for x in t[6:6 + nlog]]
-        ctx.count('stop:' + stop)
-        obs = {'stop': lc.stop_category(reg.stop_reason_), 'n_iter': int(reg.n_iter_), 'log': [float(x) for x in reg.objective_log_]}
-        want = {'stop': stop, 'n_iter': n_iter, 'log': log}
-        if obs != want:
-            ctx.mismatch('loop outcome (stop reason, n_iter_, objective_log_)', case, obs, want)
-        if Uret is not None:
-            wantU = np.zeros_like(script.a[0][1]) if ui < 0 else script.a[ui][1]
-            if Uret.shape != wantU.shape or not np.array_equal(Uret, wantU):
-                ctx.mismatch('returned U is not the U of the sub-problem-A answer the machine names', case,
-                             Uret.tolist(), [ui, wantU.tolist()])
-        wantP = np.eye(script.b[0][1].shape[0]) if pi < 0 else script.b[pi][1]
-        if hasattr(reg, 'P_') and not np.array_equal(np.asarray(reg.P_), wantP):
-            ctx.mismatch('returned P_ is not the P of the sub-problem-B answer the machine names', case,
-                         np.asarray(reg.P_).tolist(), [pi, wantP.tolist()])
+    def _sec_scripted_loop():
+        lines, meta = [], []
+        for i in range(ctx.n(60, 800)):
+            nx, nu = ctx.rng.randint(1, 2), ctx.rng.randint(0, 1)
+            X, kw, _, _ = lc.lin_data(ctx.rng, nx, nu)
+            fam = ctx.rng.choice(['edmd', 'edmd', 'dmdc'])
+            if fam == 'edmd':
+                mk = lambda **k: lmi.LmiEdmdSpectralRadiusConstr(spectral_radius=0.9, solver_params=dict(lc.SOLVER), **k)
+                reg, script, rows, line = lc.check_loop(ctx, mk, X, kw, (nx, nx + nu), (nx, nx), None, None)
+                Uret = reg.coef_.T
+            else:
+                mk = lambda **k: lmi.LmiDmdcSpectralRadiusConstr(spectral_radius=0.9, solver_params=dict(lc.SOLVER), **k)
+                reg, script, rows, line = lc.check_loop(ctx, mk, X, kw, (nx, nx + nu), (nx, nx), None, None, u_name='U_hat')
+                Uret = reg.U_hat_ if hasattr(reg, 'U_hat_') else None
+            lines.append(line)
+            meta.append((fam, reg, script, rows, Uret, nx, nu))
+        for (fam, reg, script, rows, Uret, nx, nu), rep in zip(meta, drv.ask(lines)):
+            t = rep.split()
+            ctx.count('loop:' + fam)
+            case = {'family': fam, 'rows': [[a, str(o), b] for a, o, b in rows], 'stop_at': script.stop_at,
+                    'max_iter': reg.max_iter, 'atol': reg.iter_atol}
+            ctx.record_case(case, True)
+            if t[0] != 'ok':
+                ctx.mismatch('loop machine', case, None, rep)
+                continue
+            ui, pi, stop, n_iter, nlog = int(t[1]), int(t[2]), t[3], int(t[4]), int(t[5])
+            log = [float(Fraction(x)) for x in t[6:6 + nlog]]
+            ctx.count('stop:' + stop)
+            obs = {'stop': lc.stop_category(reg.stop_reason_), 'n_iter': int(reg.n_iter_), 'log': [float(x) for x in reg.objective_log_]}
+            want = {'stop': stop, 'n_iter': n_iter, 'log': log}
+            if obs != want:
+                ctx.mismatch('loop outcome (stop reason, n_iter_, objective_log_)', case, obs, want)
+            if Uret is not None:
+                wantU = np.zeros_like(script.a[0][1]) if ui < 0 else script.a[ui][1]
+                if Uret.shape != wantU.shape or not np.array_equal(Uret, wantU):
+                    ctx.mismatch('returned U is not the U of the sub-problem-A answer the machine names', case,
+                                 Uret.tolist(), [ui, wantU.tolist()])
+            wantP = np.eye(script.b[0][1].shape[0]) if pi < 0 else script.b[pi][1]
+            if hasattr(reg, 'P_') and not np.array_equal(np.asarray(reg.P_), wantP):
+                ctx.mismatch('returned P_ is not the P of the sub-problem-B answer the machine names', case,
+                             np.asarray(reg.P_).tolist(), [pi, wantP.tolist()])
+    ctx.attempt('scripted loop', _sec_scripted_loop)
     # (iii) end to end
     sweeps = [(rho, rad, fam) for rho in (1.1, 1.2) for rad in (1.4,) for fam in ('edmd', 'dmdc')] + \
              [(0.7, 1.4, 'edmd'), (0.7, 1.4, 'dmdc')] + \
-             [(rho, 1.4, fam, cap) for rho in (0.3, 0.5) for fam in ('edmd', 'dmdc') for cap in (4, 6)]
+             [(rho, 1.4, fam, cap) for rho in (0.3, 0.5) for fam in ('edmd', 'dmdc') for cap in (4, 6)] + \
+             [(0.95, 1.0, fam, None, 'int') for fam in ('edmd',) * 8 + ('dmdc',) * 3]
 
     def end_to_end(n, stop_at_first=False):
         for i in range(n + len(sweeps)):
